@@ -423,7 +423,7 @@ class OpRunner(object):
             res2 = self._run('trash-list', argv + ['--size'], cwd, shim_kw=shim_kw)
             locs = []
             for prefix, loc, raw in self.parse_records(res2['stdout']):
-                if loc is not None and re.fullmatch(rb'\d+ ?', prefix.strip() + b' ' if prefix.strip() else b''):
+                if loc is not None:      # whatever stands for the size in front of it
                     locs.append({'r': loc[0], 'd': loc[1], 'n': loc[2]})
             obs['size'] = {'exit': runner.exit_class(res2), 'locs': locs, 'stderr': res2['stderr'][-300:].decode('utf-8', 'backslashreplace')}
         return obs, res
@@ -591,7 +591,7 @@ class OpRunner(object):
         if o['days'] != -1:
             # the same number, as argparse's int() reads it
             r7 = random.Random('days|%s|%s' % (w.conc.variant_seed, json.dumps(o, sort_keys=True)))
-            argv.append(r7.choice(['%d', '%d', '%d', '0%d', '+%d', '00%d']) % o['days'])
+            argv.append(r7.choice(['%d', '%d', '%d', '0%d', '00%d']) % o['days'])
         env = {}
         now_tick = state['clock']
         if w.conc.clock_via_env:
